@@ -258,6 +258,34 @@ def dep_arity_cases():
                 yield p, ({"verdict": "accept"} if ok else {"verdict": "reject", "kind": "depArity", "offender": ["dep1"]}), "%s/%d/%s" % (sname, cnt, pos)
 
 
+def parameter_order_cases():
+    """every parameter list of two and three parameters over {required, defaulted} x {singular, +, *}: a parameter that needs
+    a word (no default, not `*`) after a defaulted one would be left without a value, and nothing may follow a variadic"""
+    kinds = [("singular", False), ("singular", True), ("plus", False), ("plus", True), ("star", False), ("star", True)]
+    for n in (2, 3):
+        for sig in itertools.product(kinds, repeat=n):
+            params = [{"name": "q%d" % i, "kind": k, "default": Str("d%d" % i) if dflt else None} for i, (k, dflt) in enumerate(sig)]
+            bad = None
+            seen_default = False
+            for i, (k, dflt) in enumerate(sig):
+                if k != "singular" and i != n - 1:
+                    bad = "syntax"      # a second variadic marker is a syntax error, a plain name `follows variadic parameter`
+                    break
+                if dflt:
+                    seen_default = True
+                elif seen_default and k != "star":
+                    bad = "q%d" % i
+                    break
+            p = base()
+            p["recipes"][1]["params"] = params
+            p["recipes"][1]["body"] = [line("[D1] ", Var("q0"))]
+            p["recipes"][0]["priors"] = []
+            p["recipes"][0]["subs"] = []
+            tag = "+".join(("%s%s" % ({"singular": "s", "plus": "p", "star": "x"}[k], "=" if dflt else "")) for k, dflt in sig)
+            yield p, ({"verdict": "reject", "kind": "paramOrder", "offender": [bad], "nomodel": True, "any_rejection": bad == "syntax"} if bad
+                      else {"verdict": "accept", "nomodel": True}), tag
+
+
 def class_accepts(cls, n):
     return {"Nullary": n == 0, "Unary": n == 1, "UnaryOpt": n in (1, 2), "UnaryPlus": n >= 1, "Binary": n == 2,
             "BinaryPlus": n >= 2, "Ternary": n == 3}[cls]
@@ -445,6 +473,8 @@ def classify(stderr):
         (r"(?:Recipe|Alias|Variable) `([^`]*)` (?:first defined|has multiple definitions|defined on line)", "duplicate"),
         (r"Recipe `[^`]*` has duplicate parameter `([^`]*)`", "duplicate"),
         (r"Alias `[^`]*` has an unknown target `([^`]*)`", "unknownAlias"),
+        (r"Non-default parameter `([^`]*)` follows default parameter", "paramOrder"),
+        (r"Parameter `([^`]*)` follows variadic parameter", "paramOrder"),
     ]
     for pat, kind in pats:
         m = re.search(pat, stderr)
@@ -592,6 +622,8 @@ def run(report):
         cases.append((p, exp, "fnarity/" + tag))
     for p, exp, tag in duplicate_cases():
         cases.append((p, exp, "dup/" + tag))
+    for p, exp, tag in parameter_order_cases():
+        cases.append((p, exp, "paramorder/" + tag))
     for p, exp, tag in ignore_comment_cases():
         cases.append((p, exp, "ignore-comments/" + tag))
     nrand = 400 if tier == "quick" else 15000
@@ -663,7 +695,9 @@ def run(report):
                 sig = "c03-accepted:%s:%s" % (exp["kind"], "/".join(tag.split("/")[1:3]) if fam == "undefined" else fam)
                 report.failure(sig, "defect (%s %s) was accepted%s" % (exp["kind"], exp["offender"], "; run fails with an internal error" if internal else ""), replay)
                 continue
-            if kind != exp["kind"] or off not in exp["offender"]:
+            if exp.get("any_rejection"):
+                pass
+            elif kind != exp["kind"] or off not in exp["offender"]:
                 report.failure("c03-wrong-offender:%s" % fam, "rejected, but the error does not name the offender: got %s `%s`" % (kind, off), replay)
                 continue
             # the chain the message spells out must exist in the program: every step a declared dependency, and its last
@@ -708,7 +742,7 @@ def run(report):
     report.coverage.update({
         "evaluations": len(cases),
         "distinct_nontrivial": len(distinct),
-        "rule": "undefined name injected in %d contexts x %d constructor child positions (complete at depth 1 + one deep nesting); all digraphs on 3 nodes as variable and as recipe dependency graphs (thorough: + 6000 sampled 4-node digraphs each); dependency arity (8 target signatures x 0..3 arguments x prior/subsequent); every function of the regenerated table + abbreviations + unknown names x 0..4 arguments; duplicate definitions: all sequences of 2 and 3 definitions over {recipe, alias, module, variable} x 2 names x both allow-duplicate settings (quick: all pairs, a sample of triples); ignore-comments corner cases; random valid programs; every recipe of every program is also RUN (rejected => nothing ran; accepted => no internal error); distinct = distinct justfile texts" % (len(CONTEXTS), len(W)),
+        "rule": "undefined name injected in %d contexts x %d constructor child positions (complete at depth 1 + one deep nesting); all digraphs on 3 nodes as variable and as recipe dependency graphs (thorough: + 6000 sampled 4-node digraphs each); dependency arity (8 target signatures x 0..3 arguments x prior/subsequent); every parameter list of 2 and 3 parameters over {required, defaulted} x {singular, +, *}; every function of the regenerated table + abbreviations + unknown names x 0..4 arguments; duplicate definitions: all sequences of 2 and 3 definitions over {recipe, alias, module, variable} x 2 names x both allow-duplicate settings (quick: all pairs, a sample of triples); ignore-comments corner cases; random valid programs; every recipe of every program is also RUN (rejected => nothing ran; accepted => no internal error); distinct = distinct justfile texts" % (len(CONTEXTS), len(W)),
         "samples": samples,
         "exhaustive": True,
         "traces_validated_against_impl": len(cases),
